@@ -83,6 +83,16 @@ fn msg_kind(m: &Message<'_>) -> &'static str {
 
 /// A reply line as the far end would put it on the wire. Returns (bytes, kind).
 fn reply_line(cx: &Cx) -> (Vec<u8>, &'static str) {
+    if cx.chance(1, 16) {
+        // the far end stops in the middle of its line (no LF ever arrives)
+        let mut l = Frame::from(Message::ReportState(gens::address(cx), gens::ALL_STATES[cx.draw(13) as usize])).to_bytes_with_newline();
+        let keep = 1 + cx.draw(l.len() as u64 - 1) as usize;
+        l.truncate(keep);
+        if l.ends_with(b"\n") {
+            l.pop();
+        }
+        return (l, "partial-line");
+    }
     match cx.draw(10) {
         0..=3 => {
             let m = match cx.draw(3) {
@@ -199,7 +209,7 @@ fn run_plan(cx: &Cx, plan: &[StepPlan], eof: bool, benign: (bool, u64, bool)) ->
 }
 
 /// Judges one step against the property, from the port's log only.
-fn judge_step(cx: &Cx, i: usize, st: &StepPlan, lg: &StepLog) {
+fn judge_step(cx: &Cx, i: usize, st: &StepPlan, lg: &StepLog, eof: bool) {
     let m = &st.m;
     let want_bytes = Frame::from(m.clone()).to_bytes_with_newline();
     let due = reply_due(m);
@@ -264,7 +274,9 @@ fn judge_step(cx: &Cx, i: usize, st: &StepPlan, lg: &StepLog) {
     if !line.is_empty() && lg.pos_before + line.len() < lg.incoming.len() {
         cx.probe("bytes_follow_the_reply_line");
     }
-    let want = if complete { expected_reply(line) } else { None };
+    // A line cut short by end-of-stream is still "the line" (C15: up to the first LF or the end);
+    // a line cut short by a read timeout is a read failure.
+    let want = if complete || eof { expected_reply(line) } else { None };
     match (&lg.result, &want) {
         (Ok(Some(got)), Some(w)) if got == w => {}
         (Err(_), None) => {}
@@ -330,7 +342,7 @@ impl Scenario for C16 {
             return Ok(()); // the bus could not even be built (C20's business): no verdict
         }
         for (i, (st, lg)) in plan.iter().zip(logs.iter()).enumerate() {
-            judge_step(cx, i, st, lg);
+            judge_step(cx, i, st, lg, eof);
             cx.verdict()?;
             if lg.result.is_err() && i + 1 < plan.len() {
                 cx.probe("step_follows_a_failed_step");
@@ -359,7 +371,7 @@ impl Scenario for C16 {
             }
             cx.probe("fault_at_each_op_index");
             for (i, (st, lg)) in p2.iter().zip(lj.iter()).enumerate() {
-                judge_step(cx, i, st, lg);
+                judge_step(cx, i, st, lg, eof);
             }
             cx.verdict()?;
             j += step;
